@@ -231,15 +231,30 @@ def run_case(case):
     if len(gens) >= 2:
         res.tag("gens>=2")
     nontrivial = any(tb.get("unreached") for tb in tables)
+    keep = case.get("keep", [])
+    ir = None
     for gi, actions in enumerate(gens):
         where = "generation %d" % gi
-        try:
-            ir = g.IR.load_protobuf_file(io.BytesIO(data))
-        except pbt.CaseTimeout:
-            raise
-        except Exception as e:
-            res.fail(pbt.exception_bucket("C14:load", e), "%s: %r" % (where, e))
-            return res
+        # "keep": the IR object saved by the previous generation is edited and
+        # saved again (no reload in between); values read earlier are still
+        # held by the user and edited through those references
+        reuse = ir is not None and gi - 1 < len(keep) and bool(keep[gi - 1])
+        if reuse:
+            res.tag("gen:same-ir-saved-again")
+            where += " (same IR object, saved before)"
+        else:
+            try:
+                ir = g.IR.load_protobuf_file(io.BytesIO(data))
+            except pbt.CaseTimeout:
+                raise
+            except Exception as e:
+                res.fail(pbt.exception_bucket("C14:load", e), "%s: %r" % (where, e))
+                return res
+            for tb in tables:
+                tb["dirty"] = False
+                tb["read"] = False
+                tb["value"] = None
+                tb["pv"] = None
         lookup = ir.get_by_uuid
         for ti, tb in enumerate(tables):
             act = actions[ti] if ti < len(actions) else {"a": "leave"}
@@ -249,9 +264,6 @@ def run_case(case):
             if ad is None or ad.type_name != tb["tname"]:
                 res.fail("C14:table-lost-on-load", "%s: %s" % (where, tb["key"]))
                 return res
-            tb["dirty"] = False
-            tb["read"] = False
-            tb["value"] = None
             if tb["unknown"] and a not in ("leave", "read"):
                 a = "read"
             if a == "retype" and widen(tb["tree"], act.get("k", 0)) is None:
@@ -269,21 +281,30 @@ def run_case(case):
                         if tb.get("unreached") is False and not isinstance(got, bytes):
                             res.fail("C14:unknown-type-read-not-opaque", "%s %s: %r" % (where, tb["tname"], type(got)))
                     else:
-                        tb["value"] = decoded_value(tb["tree"], tb["raw"])
+                        if tb["value"] is None:
+                            tb["value"] = decoded_value(tb["tree"], tb["raw"])
+                        tb["pv"] = got
                     continue
                 tree = tb["tree"]
-                if a == "mutate" or (a in ("retype", "assign") and act.get("readfirst")):
-                    cur = decoded_value(tree, tb["raw"])
+                held = a == "mutate" and reuse and tb["pv"] is not None and tb["value"] is not None and not act.get("readfirst")
+                if held:
+                    # edit through the reference obtained before the last save
+                    pv = tb["pv"]
+                    res.tag("act:mutate-held-reference-after-save")
+                elif a == "mutate" or (a in ("retype", "assign") and act.get("readfirst")):
                     pv = ad.data
                     tb["read"] = True
-                    tb["value"] = cur
+                    if tb["value"] is None:
+                        tb["value"] = decoded_value(tree, tb["raw"])
+                    tb["pv"] = pv
                 if a == "mutate":
                     nontrivial = True
                     new = mutate(g, tree, tb["value"], pv, tb["alts"], act.get("k", 0), lookup)
                     if new is None:
                         # immutable top-level value: replace it
                         alt = pick_alt(tree, tb["alts"], act.get("k", 0))
-                        ad.data = auxref.to_python(tree, alt, g, lookup)
+                        tb["pv"] = auxref.to_python(tree, alt, g, lookup)
+                        ad.data = tb["pv"]
                         new = alt
                     tb["value"] = new
                     tb["dirty"] = True
@@ -291,7 +312,8 @@ def run_case(case):
                     if not tb["read"]:
                         res.tag("act:assign-unread")
                     alt = pick_alt(tree, tb["alts"], act.get("k", 0))
-                    ad.data = auxref.to_python(tree, alt, g, lookup)
+                    tb["pv"] = auxref.to_python(tree, alt, g, lookup)
+                    ad.data = tb["pv"]
                     tb["value"] = alt
                     tb["dirty"] = True
                 elif a == "retype":
@@ -499,6 +521,7 @@ def strategy():
             "tables": st.lists(table(), min_size=1, max_size=4),
             "gens": st.lists(st.lists(action, min_size=5, max_size=5), min_size=1, max_size=3),
             "twin": st.sampled_from([False, False, True]),
+            "keep": st.lists(st.booleans(), min_size=2, max_size=2),
         }
     )
 
